@@ -33,10 +33,12 @@ CLAIMS = {
 }
 GOALS = {'quick': ['a chain of 3', 'two steps in one layer', 'nested', 'split',
                    'a flow step also makes a structural update',
-                   'deriver created at run time', 'legacy derivers only'],
+                   'deriver created at run time', 'legacy derivers only',
+                   'nested flow steps generated at run time'],
          'thorough': ['a chain of 3', 'two steps in one layer', 'nested',
                       'split', 'a flow step also makes a structural update',
-                      'deriver created at run time', 'legacy derivers only']}
+                      'deriver created at run time', 'legacy derivers only',
+                      'nested flow steps generated at run time']}
 STUBS = ['flow steps computing v_j from what they read (set updater that logs '
          'applications); one of them (symbolic choice, or none) adds a child '
          'to a glob store in the same update, every phase', 'two legacy derivers (one listed under processes, one '
@@ -110,10 +112,22 @@ class Spawner(Process):
         gen = {'key': 'c1', 'processes': {'late': late, 'late2': late2},
                'topology': {'late': dict(wires), 'late2': dict(wires)},
                'initial_state': {}}
-        if self.parameters.get('as_steps'):
+        mode = self.parameters.get('mode', 0)
+        if mode == 1:
             # the same derivers under the 'steps' key, still without flow
             gen['steps'] = gen.pop('processes')
             gen['processes'] = {}
+        elif mode == 2:
+            # flow steps in a compartment nested inside the generated one,
+            # the dependent step listed first
+            deep = {'s': ('..', '..', '..', 's'), 'o': ('..', '..', '..', 'o')}
+            gen = {'key': 'c1', 'processes': {},
+                   'steps': {'inner': {'late2': late2, 'late': late}},
+                   'flow': {'inner': {'late2': [('late',)], 'late': []}},
+                   'topology': {'inner': {'late2': dict(deep),
+                                          'late': dict(deep)}},
+                   'initial_state': {}}
+            CTX['ctx'].goal('nested flow steps generated at run time')
         return {'s': {'n_spawned': 1}, 'gen': {'_generate': [gen]}}
 
 
@@ -308,12 +322,13 @@ def body(ctx, cfg):
     topology_p['p'] = {'s': up + ('s',)}
     topology_p['p2'] = {'s': up + ('s',)}
     CTX['spawn_issued'] = False
+    CTX['ctx'] = ctx
     spawn = ctx.flag('spawn')
     if spawn:
         # a deriver created at run time takes part in every later phase
         processes['spawner'] = Spawner({'name': 'spawner',
                                         'ts': ctx.int('ts', 1, 2),
-                                        'as_steps': ctx.flag('as_steps')})
+                                        'mode': ctx.choice('spawn_as', 3)})
         topology['spawner'] = {'s': ('s',), 'gen': ('gen',)}
         ctx.goal('deriver created at run time')
 
